@@ -63,14 +63,14 @@ def run(tier, seed):
         wf = rnd.random() < 0.3
         jobs.append(dict(with_functions=wf, calls=calls + [last], last=last, construct_first=rnd.random() < 0.4))
     # directed histories: every regression text and the state-dependent rejected text, observed (a) after all the other regression texts
-    # in two random orders (a later text can mask what an earlier one left behind, hence two orders), once reached through compile and
-    # once through the observed call itself, and (b) directly after a few single predecessors
+    # in a random order (two orders in the thorough tier: a later text can mask what an earlier one left behind), reached through compile
+    # or through the observed call itself, and (b) directly after a few single predecessors
     pool = regress + [DECLARES_NODE]
     for t in regress + [REJECTED[-1]]:
         for api in (['compile', 'cnl_to_json'] if tier == 'quick' else APIS):
             others = [h for h in pool if h != t]
             last = [api, t]
-            for via in ('compile', api):
+            for via in (('compile', api) if tier != 'quick' else (rnd.choice(['compile', api]),)):
                 order = list(others)
                 rnd.shuffle(order)
                 jobs.append(dict(with_functions=False, calls=[[via, h] for h in order] + [last], last=last, construct_first=rnd.random() < 0.5))
